@@ -220,3 +220,40 @@ Example ex_sv_bytes :
 <v Mary Ann>x > y
 "%string).
 Proof. vm_compute. reflexivity. Qed.
+
+(* ================= the hypothesis on the conversion is needed ================= *)
+(* One-cue SSA documents, all representable (doc_reprb), whose conversion is NOT a representable WebVTT document; the
+   conversion is computed on the models (written SSA file -> convert_ssa_vtt -> read_vtt -> plain view) and was replayed on
+   the library (notes/C07-ssa-vtt.md):
+   an empty line between two lines of a cue without speaker ends the WebVTT cue (the third line is taken for a cue
+   identifier); a speaker name with '>' closes the voice tag early (the rest of the name lands in the text); a line that
+   starts like a WebVTT comment is read as a comment; a text with the arrow is read as a timing line (the file is
+   rejected); white space at the end of a line (SSA keeps it in front of an override block) is trimmed. *)
+Definition sv_doc1 (name : str) (ls : list (list arun)) : adoc :=
+  mkAdoc None [] [mkAitem 1000000000%Z 2000000000%Z None None (map (mkAline name) ls)].
+Definition sv_trip (d : adoc) : res plain :=
+  match write_ssa d [] with
+  | Ok ssa => match convert_ssa_vtt ssa with
+              | Ok vtt => match read_vtt vtt with Ok d' => Ok (vtt_to_plain d') | Err k => Err k | Panic p => Panic p end
+              | Err k => Err k | Panic p => Panic p end
+  | Err k => Err k | Panic p => Panic p end.
+Example ssa_to_vtt_needs_no_empty_line :
+  let d := sv_doc1 [] [[mkArun (s2l "one"%string) None]; [mkArun [] None]; [mkArun (s2l "three"%string) None]] in
+  doc_reprb d = true /\ sv_trip d = Ok [(1000000000%Z, 2000000000%Z, [s2l "one"%string])].
+Proof. split; vm_compute; reflexivity. Qed.
+Example ssa_to_vtt_needs_voice_without_gt :
+  let d := sv_doc1 (s2l "a>b"%string) [[mkArun (s2l "t"%string) None]] in
+  doc_reprb d = true /\ sv_trip d = Ok [(1000000000%Z, 2000000000%Z, [s2l "b>t"%string])].
+Proof. split; vm_compute; reflexivity. Qed.
+Example ssa_to_vtt_needs_no_note_prefix :
+  let d := sv_doc1 [] [[mkArun (s2l "NOTE this"%string) None]] in
+  doc_reprb d = true /\ sv_trip d = Ok [(1000000000%Z, 2000000000%Z, [])].
+Proof. split; vm_compute; reflexivity. Qed.
+Example ssa_to_vtt_needs_no_arrow :
+  let d := sv_doc1 [] [[mkArun (s2l "a --> b"%string) None]] in
+  doc_reprb d = true /\ sv_trip d = Err EParse.
+Proof. split; vm_compute; reflexivity. Qed.
+Example ssa_to_vtt_needs_trimmed_line :
+  let d := sv_doc1 [] [[mkArun (s2l "trail "%string) None; mkArun [] (Some (s2l "{\i0}"%string))]] in
+  doc_reprb d = true /\ sv_trip d = Ok [(1000000000%Z, 2000000000%Z, [s2l "trail"%string])].
+Proof. split; vm_compute; reflexivity. Qed.
